@@ -25,9 +25,26 @@ Proof. exact conn_parse_progress. Qed.
 Theorem C06_error_terminates : forall sha1 cf disk ovf s r, hstep sha1 cf disk ovf s ERecvErr r = HEnd s [] false.
 Proof. reflexivity. Qed.
 
-(* full statement kept visible (segmentation independence):
-     forall reads, fst (fst (run_conn reads)) = fst (fst (spec_stream (concat reads)))
-   not proved in Coq yet; it is decided per prefix by the correspondence (all 2^(n-1) cuts of short streams). *)
+(* segmentation independence.  Dec s ms r tl: decoding the byte string s with Connection::parse_frame's decisions
+   delivers the messages ms and ends needing more bytes (SMore) with tl buffered, or in an error (SBad).
+   IncRun cs ms r buf: the receive side after the reads cs, each read appended to the buffered remainder.
+   However the stream is cut into reads, the messages delivered, the outcome and the buffered remainder are those of the
+   whole stream: every complete message already received is delivered, unknown ids are skipped, nothing waits for
+   further bytes that is not genuinely incomplete. *)
+Theorem C06_segmentation : forall cs ms r buf, IncRun cs ms r buf -> Dec (concat cs) ms r buf.
+Proof. intros. apply segmentation_independent; [reflexivity | assumption]. Qed.
+
+Theorem C06_any_two_cuts_agree : forall cs1 cs2 ms1 r1 b1 ms2 r2 b2, concat cs1 = concat cs2 ->
+  IncRun cs1 ms1 r1 b1 -> IncRun cs2 ms2 r2 b2 -> ms1 = ms2 /\ r1 = r2 /\ b1 = b2.
+Proof. intros. eapply any_two_segmentations_agree; eauto. Qed.
+
+(* every byte string has exactly one meaning (totality of the decoder as a relation) *)
+Theorem C06_meaning_exists : forall s, exists ms r tl, Dec s ms r tl.
+Proof. intros. apply dec_total. reflexivity. Qed.
+
+(* the executable recv_frame / drain of Conn.v follow conn_parse's decisions by construction (Deliver -> return the frame,
+   Skip -> parse again, Wait -> read, Fail -> Err); a Coq lemma relating `drain` to `Dec` is not proved, the correspondence
+   runs `drain` against the real Connection on all cuts of short streams *)
 
 (* the pinned decoder is refuted: an unknown id whose body has not arrived crashed the connection *)
 Example C06_nonvacuous : parse_frame [0;0;0;5;9;0] = PUnknown 9 9 /\ conn_parse [0;0;0;5;9;0] = PWait
@@ -38,3 +55,6 @@ Print Assumptions C06_total.
 Print Assumptions C06_bounded.
 Print Assumptions C06_progress.
 Print Assumptions C06_error_terminates.
+Print Assumptions C06_segmentation.
+Print Assumptions C06_any_two_cuts_agree.
+Print Assumptions C06_meaning_exists.
